@@ -4,10 +4,9 @@ import (
 	"fmt"
 	"os"
 	"strconv"
+	"strings"
 	"sync/atomic"
 	"time"
-
-	"github.com/welllog/golib/setz"
 
 	"verifharness/internal/core"
 )
@@ -78,8 +77,7 @@ func impl(c core.Case) []string {
 }
 
 func implInner(c core.Case, put func(i int, s string)) []string {
-	var rb setz.RoaringBitmap
-	var hs handles
+	cr := &caseRun{cnt: map[uint32]int{}}
 	i := 0
 	rec := func(s string) string {
 		put(i, s)
@@ -88,34 +86,46 @@ func implInner(c core.Case, put func(i int, s string)) []string {
 	}
 	return core.RunOps(c,
 		func(hdr []string) string {
-			if len(hdr) != 1 || hdr[0] != "rb" {
-				return rec("bad-op")
+			switch {
+			case len(hdr) == 1 && hdr[0] == "rb":
+				return rec("ok")
+			case len(hdr) == 2 && hdr[0] == "rb" && strings.HasPrefix(hdr[1], "heights="):
+				// the tower heights of the inner skip list are forced from here on (the Lean
+				// model has no towers and ignores the token); unknown kinds force nothing
+				if src, ok := parseHeights(hdr[1]); ok && src.kind != "natural" {
+					cr.src = src
+				}
+				return rec("ok")
 			}
-			return rec("ok")
+			return rec("bad-op")
 		},
-		func(t []string) string { return rec(step(&rb, &hs, t)) })
+		func(t []string) string { return rec(step(cr, t)) })
 }
 
-func step(rb *setz.RoaringBitmap, hs *handles, t []string) string {
+func step(cr *caseRun, t []string) string {
 	if len(t) == 0 {
 		return "bad-op"
 	}
-	if isMutation(t[0]) {
+	cr.alarm = ""
+	var o string
+	switch {
+	case isMutation(t[0]):
 		// a RoaringBitmapIter is only valid while the bitmap is not mutated: every
 		// well-formed add / rm / fill / drain line empties the Iter slots
-		o := stepPlain(rb, t)
+		o = stepPlain(cr, t)
 		if o != "bad-op" {
-			hs.dropIters()
+			cr.hs.dropIters()
 		}
-		return o
+	case isHandleOp(t[0]):
+		o = cr.hs.step(&cr.rb, t)
+	default:
+		o = stepPlain(cr, t)
 	}
-	if isHandleOp(t[0]) {
-		return hs.step(rb, t)
-	}
-	return stepPlain(rb, t)
+	return o + cr.alarm
 }
 
-func stepPlain(rb *setz.RoaringBitmap, t []string) string {
+func stepPlain(cr *caseRun, t []string) string {
+	rb := &cr.rb
 	switch t[0] {
 	case "add", "rm", "has":
 		if len(t) != 2 {
@@ -127,9 +137,9 @@ func stepPlain(rb *setz.RoaringBitmap, t []string) string {
 		}
 		switch t[0] {
 		case "add":
-			return strconv.FormatBool(rb.Add(v))
+			return strconv.FormatBool(cr.add(v))
 		case "rm":
-			return strconv.FormatBool(rb.Remove(v))
+			return strconv.FormatBool(cr.remove(v))
 		}
 		return strconv.FormatBool(rb.Contains(v))
 	case "len":
@@ -142,6 +152,7 @@ func stepPlain(rb *setz.RoaringBitmap, t []string) string {
 			return "bad-op"
 		}
 		s, _ := dumpRep(rb)
+		cr.structural()
 		return s
 	case "fill", "drain":
 		a, ok := parseBulk(t)
@@ -154,9 +165,9 @@ func stepPlain(rb *setz.RoaringBitmap, t []string) string {
 			v := uint32(a.hi)<<16 | uint32(cur%65536)
 			var ok bool
 			if t[0] == "fill" {
-				ok = rb.Add(v)
+				ok = cr.add(v)
 			} else {
-				ok = rb.Remove(v)
+				ok = cr.remove(v)
 			}
 			if ok {
 				k++
@@ -232,6 +243,9 @@ func check(c core.Case, out []string) *core.Failure {
 	}
 	for i := 1; i < len(c.Lines); i++ {
 		t := core.Toks(c.Lines[i])
+		if rest, key, why := alarmOf(out[i]); key != "" {
+			return &core.Failure{Key: key, Desc: fmt.Sprintf("op %d %q (answer %q): in-place validation of the real representation failed: %s", i, c.Lines[i], rest, why)}
+		}
 		switch out[i] {
 		case "bad-op":
 			continue
